@@ -8,7 +8,8 @@ RULE = ("PS: structure-aware generator (3 comment styles x UTF-8 / UTF-8+BOM / U
         "LF-only block, truncation, odd trailing byte, BOM flips, stray 0x0A bytes, invalid UTF-8, lone surrogates, trailing text, two blocks, "
         "near-marker lines, unknown style); ops: digest (hash stream, TextSize, SigSize), sign (MakePatch + real patch application + "
         "re-digest), resign (two rounds vs one), locate (VerifyPowershell line scan), realsign (signer module with real keys, two "
-        "rounds, real verifier, every style x encoding), mutate (C02). Non-trivial = distinct op with a known style.")
+        "rounds, real verifier, every style x encoding), mutate (C02); C02 also gets digest ops on UTF-8 scripts with 2/3/4-byte characters, "
+        "predicate ps_hashed_is_utf16 (imprint = SHA-256 of the UTF-16LE encoding of the text, computed by the check). Non-trivial = distinct op with a known style.")
 TRUSTED = ["Relic.Model.PS is hand-written from lib/authenticode/powershell.go; tied by differential execution",
            "SHA-256 of the model's byte stream is computed by the check (hashlib), never in Lean: hashes are parameters",
            "encoding/base64 decoding of the located signature lines is Go's"]
@@ -87,6 +88,19 @@ def predicate(prop, op, il, mres, tag):
     if f[1] in ("digest", "sign") and il == "err malformed" and _valid_utf16(_b(f[3])):
         return ("Relic.Props.C01.ps_sign_then_redigest", mres.split(" ")[0],
                 "a well-formed UTF-16LE script is refused with 'malformed utf16' (a code unit contains a 0x0A byte)")
+    if f[1] == "digest" and il.startswith("ok imprint="):
+        # Relic.Props.C02.ps_hashed_is_utf16: text that is not UTF-16 and is valid UTF-8 is hashed as the UTF-16LE
+        # encoding of its characters (evaluated on the implementation's imprint, independently of the model)
+        parts = il.split(" ")
+        if len(parts) >= 5 and parts[4] == "0":
+            text = _b(f[3])[:int(parts[2])]
+            try:
+                want = hashlib.sha256(text.decode("utf-8").encode("utf-16-le")).hexdigest()
+            except UnicodeDecodeError:
+                want = None
+            if want is not None and parts[1] != "imprint=" + want:
+                return ("Relic.Props.C02.ps_hashed_is_utf16", "imprint=" + want,
+                        "the text in front of the signature block is valid UTF-8 but the digest is not that of its UTF-16LE encoding")
     if f[1] == "sign" and il.startswith("ok "):
         parts = il.split(" ")
         kv = _kv(tag)
